@@ -199,7 +199,18 @@ func runC06(ctx *Ctx) {
 			b = mutate(rt, ctx, t, b, labels)
 			ctx.MergeLabels(labels)
 			return &Case{Sub: "mutate", Type: string(t.Name), Bytes: hexs(b), Bytes2: hexs(orig)}
-		}, func(c *Case) error { return checkDecodeTotal(ctx, c) })
+		}, func(c *Case) error {
+			err := checkDecodeTotal(ctx, c)
+			if h, ok := err.(hangErr); ok {
+				// a call that never returns cannot be shrunk (every attempt costs the
+				// full watchdog, and its goroutines keep spinning): report the case as
+				// it is and end this shard, so that the verdict arrives in time
+				ctx.Violation(c, string(h))
+				os.Stdout.Sync()
+				os.Exit(1)
+			}
+			return err
+		})
 	}
 	runDepthArm(ctx)
 }
@@ -282,6 +293,11 @@ func decodeGuarded(t *model.Type, b []byte, opts proto.UnmarshalOptions, measure
 	}
 }
 
+// hangErr is the verdict "the call does not return".
+type hangErr string
+
+func (h hangErr) Error() string { return string(h) }
+
 // decodeGuardedInto is decodeGuarded for an existing object (proto.Unmarshal resets it first).
 func decodeGuardedInto(p proto.Message, b []byte) (res decodeResult, hung bool) {
 	done := make(chan decodeResult, 1)
@@ -324,7 +340,7 @@ func checkDecodeTotal(ctx *Ctx, c *Case) error {
 			ctx.Label("slow call (finished within 10x watchdog, not reported)")
 			return nil
 		case <-time.After(200 * time.Second):
-			return fmt.Errorf("Unmarshal did not return within 220 s on %d bytes", len(b))
+			return hangErr(fmt.Sprintf("Unmarshal did not return within 220 s on %d bytes", len(b)))
 		}
 	}
 	if res.panicked != nil {
@@ -352,7 +368,7 @@ func checkDecodeTotal(ctx *Ctx, c *Case) error {
 		case <-done:
 			ctx.Label("slow call (finished within 10x watchdog, not reported)")
 		case <-time.After(200 * time.Second):
-			return fmt.Errorf("Unmarshal with %s did not return within 220 s on %d bytes", v.name, len(b))
+			return hangErr(fmt.Sprintf("Unmarshal with %s did not return within 220 s on %d bytes", v.name, len(b)))
 		}
 	case vres.panicked != nil:
 		return fmt.Errorf("Unmarshal with options %s panicked: %v\n%s", v.name, vres.panicked, trunc(vres.stack, 1200))
